@@ -125,8 +125,10 @@ type disc struct {
 }
 
 type report struct {
-	discs  []disc
-	counts map[string]int
+	discs   []disc         // unexplained discrepancies (first maxDiscs of each class), in order of discovery
+	counts  map[string]int // every discrepancy, by class
+	excused map[string]int // those matched by a listed known finding, by class
+	m       *matcher       // nil: nothing is excused
 	// facts about the cmap used by the matchers and the evidence labels
 	typeName   string // %T of the Cmap (e.g. font.cmap4, font.remaperPUASimp)
 	innerType  string // %T of the wrapped cmap for remappers, else typeName
@@ -141,11 +143,23 @@ type report struct {
 	wantCovered map[language.Script]rune
 }
 
+// add records a discrepancy. Every single one goes through the known-finding matchers (so that a
+// defect hidden behind many excused discrepancies of the same class is still reported); only the
+// unexplained ones are kept.
 func (rp *report) add(d disc) {
 	rp.counts[d.Class]++
-	if rp.counts[d.Class] <= maxDiscs {
+	if rp.m != nil && rp.m.excuses(&d) {
+		rp.excused[d.Class]++
+		return
+	}
+	if rp.counts[d.Class]-rp.excused[d.Class] <= maxDiscs {
 		rp.discs = append(rp.discs, d)
 	}
+}
+
+func typeNames(cm font.Cmap) (typeName, innerType string) {
+	inner, _ := innerCmap(cm)
+	return fmt.Sprintf("%T", cm), fmt.Sprintf("%T", inner)
 }
 
 // innerCmap unwraps the legacy remappers (struct{ Cmap }) by reflection.
@@ -185,11 +199,9 @@ func (un *universe) mark(lo, hi int64) {
 // checkCmap evaluates laws (a), (b), (c) of one cmap over the universe and returns every
 // disagreement. hint lists extra (lo,hi) intervals to evaluate when the universe is not exhaustive;
 // the BMP, the pages of every rune yielded by Iter and of every RuneRanges bound are always in.
-func checkCmap(cm font.Cmap, exhaustive bool, hint [][2]int64) (rp *report) {
-	rp = &report{counts: map[string]int{}}
-	rp.typeName = fmt.Sprintf("%T", cm)
-	inner, _ := innerCmap(cm)
-	rp.innerType = fmt.Sprintf("%T", inner)
+func checkCmap(cm font.Cmap, exhaustive bool, hint [][2]int64, m *matcher) (rp *report) {
+	rp = &report{counts: map[string]int{}, excused: map[string]int{}, m: m}
+	rp.typeName, rp.innerType = typeNames(cm)
 	stage := "start"
 	defer func() {
 		if r := recover(); r != nil {
@@ -227,13 +239,13 @@ func checkCmap(cm font.Cmap, exhaustive bool, hint [][2]int64) (rp *report) {
 			continue
 		}
 		un.mark(int64(r), int64(r))
+		if g == 0 {
+			s.itZero.set(r)
+		}
 		if s.itSeen.has(r) {
 			rp.add(disc{Class: dIterDup, Rune: r, Glyph: uint32(g), Msg: fmt.Sprintf("Iter yields %s more than once", u(r))})
 		}
 		s.itSeen.set(r)
-		if g == 0 {
-			s.itZero.set(r)
-		}
 		pairs = append(pairs, pair{r, g})
 	}
 	if len(outside) > 0 {
@@ -416,9 +428,9 @@ type shape struct {
 	unordered bool // segments/groups unsorted or overlapping, or codes beyond U+10FFFF
 }
 
-func shapeOfType(rp *report) shape {
+func shapeOfType(typeName, innerType string) shape {
 	sh := shape{format: -1}
-	switch rp.innerType {
+	switch innerType {
 	case "font.cmap0":
 		sh.format = 0
 	case "font.cmap4":
@@ -430,7 +442,7 @@ func shapeOfType(rp *report) shape {
 	case "font.cmap13":
 		sh.format = 13
 	}
-	sh.remapped = strings.HasPrefix(rp.typeName, "font.remaper")
+	sh.remapped = strings.HasPrefix(typeName, "font.remaper")
 	return sh
 }
 
@@ -459,55 +471,79 @@ func scriptDiscs(ss fontscan.ScriptSet, want map[language.Script]rune, what stri
 	return out
 }
 
-// judge filters the discrepancies of a report through the known-finding matchers and returns the
-// first unexplained one (nil when the case passes) and the ids of the findings that matched.
-func judge(rp *report, sh shape) (*disc, []string) {
-	s := scr
-	matched := map[string]bool{}
-	use := func(id string) bool {
-		if ev.Known(id) {
-			matched[id] = true
-			return true
-		}
+// matcher applies the structural matchers of the listed known findings to single discrepancies.
+type matcher struct {
+	sh         shape
+	matched    map[string]bool
+	covExcused bool // a coverage/Lookup disagreement was matched by a known finding
+}
+
+func newMatcher(sh shape) *matcher { return &matcher{sh: sh, matched: map[string]bool{}} }
+
+func (m *matcher) use(id string) bool {
+	if ev.Known(id) {
+		m.matched[id] = true
+		return true
+	}
+	return false
+}
+
+func (m *matcher) ids() []string {
+	ids := make([]string, 0, len(m.matched))
+	for id := range m.matched {
+		ids = append(ids, id)
+	}
+	sort.Strings(ids)
+	return ids
+}
+
+// excuses tells whether a rune-level discrepancy is matched by a listed known finding.
+func (m *matcher) excuses(d *disc) bool {
+	s, sh := scr, m.sh
+	if d.Class == dPanic {
 		return false
 	}
+	zeroByIter := inRange(d.Rune) && s.itZero.has(d.Rune) // Iter itself yields the rune with glyph 0
+	ok := false
+	switch d.Class {
+	case dIterNotLookup, dRangesExtra, dCovExtra:
+		ok = zeroByIter && m.use(kfGlyphZero)
+	case dIterDup:
+		// ... and a remapper that finds the rune unmapped by the wrapped cmap yields it again
+		ok = sh.remapped && zeroByIter && m.use(kfGlyphZero)
+	case dLookupNotIter, dCovMissing, dRangesMissing:
+		// remapped rune: the wrapped cmap does not map the rune itself
+		ok = sh.remapped && m.use(kfRemap)
+	case dIterGlyph:
+		ok = sh.format == 4 && d.Glyph > 0xFFFF && int64(d.Glyph&0xFFFF) == d.Lookup && m.use(kfCmap4Wide) ||
+			sh.remapped && d.Glyph == 0 && zeroByIter && m.use(kfGlyphZero)
+	}
+	if !ok && sh.inverted {
+		ok = m.use(kfInverted)
+	}
+	if !ok && sh.unordered {
+		ok = m.use(kfUnordered)
+	}
+	if ok && (d.Class == dCovExtra || d.Class == dCovMissing || d.Class == dCovRunaway) {
+		m.covExcused = true
+	}
+	return ok
+}
+
+// judge returns the first unexplained discrepancy of a report (nil when the case passes) and the
+// ids of the findings that matched. The rune-level discrepancies were filtered when recorded; the
+// script set is judged here.
+func judge(rp *report) (*disc, []string) {
+	m := rp.m
 	var first *disc
-	covExcused := false // a coverage/Lookup disagreement was matched by a known finding
-	for i := range rp.discs {
-		d := &rp.discs[i]
-		ok := false
-		switch d.Class {
-		case dIterNotLookup, dRangesExtra, dCovExtra:
-			// Iter itself reports the rune with glyph 0
-			ok = inRange(d.Rune) && s.itZero.has(d.Rune) && use(kfGlyphZero)
-		case dIterDup:
-			// ... and a remapper that finds the rune unmapped by the wrapped cmap yields it again
-			ok = sh.remapped && inRange(d.Rune) && s.itZero.has(d.Rune) && use(kfGlyphZero)
-		case dLookupNotIter, dCovMissing, dRangesMissing:
-			// remapped rune: the wrapped cmap does not map the rune itself
-			ok = sh.remapped && use(kfRemap)
-		case dIterGlyph:
-			ok = sh.format == 4 && d.Glyph > 0xFFFF && int64(d.Glyph&0xFFFF) == d.Lookup && use(kfCmap4Wide) ||
-				sh.remapped && d.Glyph == 0 && inRange(d.Rune) && s.itZero.has(d.Rune) && use(kfGlyphZero)
-		}
-		if !ok && sh.inverted && d.Class != dPanic {
-			ok = use(kfInverted)
-		}
-		if !ok && sh.unordered && d.Class != dPanic {
-			ok = use(kfUnordered)
-		}
-		if ok && (d.Class == dCovExtra || d.Class == dCovMissing) {
-			covExcused = true
-		}
-		if !ok && first == nil {
-			first = d
-		}
+	if len(rp.discs) > 0 {
+		first = &rp.discs[0]
 	}
 	// Script set: exactly the scripts of the runes Lookup maps. When coverage and Lookup differ for
 	// a listed reason, the weaker predicate "exactly the scripts of the runes of the coverage"
 	// (Footprint.Scripts: "the set of scripts deduced from Runes") is demanded instead.
 	want, what := rp.wantLookup, "mapped by Lookup"
-	if covExcused && first == nil {
+	if m.covExcused {
 		want, what = rp.wantCovered, "contained in the coverage"
 	}
 	for _, d := range scriptDiscs(rp.scripts, want, what) {
@@ -515,21 +551,18 @@ func judge(rp *report, sh shape) (*disc, []string) {
 		rp.counts[d.Class]++
 		ok := false
 		if d.Class == dScriptExtra && d.Script == language.Unknown.String() && rp.ranger && reachesLastScriptRange() {
-			ok = use(kfScriptsLast)
+			ok = m.use(kfScriptsLast)
 		}
-		if !ok && d.Class != dScriptOrder && (sh.inverted && use(kfInverted) || sh.unordered && use(kfUnordered)) {
+		if !ok && d.Class != dScriptOrder && (m.sh.inverted && m.use(kfInverted) || m.sh.unordered && m.use(kfUnordered)) {
 			ok = true // scriptsFromRanges requires sorted ranges
 		}
-		if !ok && first == nil {
+		if ok {
+			rp.excused[d.Class]++
+		} else if first == nil {
 			first = &d
 		}
 	}
-	ids := make([]string, 0, len(matched))
-	for id := range matched {
-		ids = append(ids, id)
-	}
-	sort.Strings(ids)
-	return first, ids
+	return first, m.ids()
 }
 
 // reachesLastScriptRange: some rune described by RuneRanges lies at or after the start of the last
@@ -556,8 +589,8 @@ type corpusCase struct {
 
 func checkCorpusFace(t ev.TB, file string, index int, face *font.Face) (nontrivial bool) {
 	cm := face.Cmap
-	rp := checkCmap(cm, true, nil)
-	sh := shapeOfType(rp)
+	sh := shapeOfType(typeNames(cm))
+	rp := checkCmap(cm, true, nil, newMatcher(sh))
 	// NominalGlyph is the face's view of Lookup: it must be the same function
 	for _, r := range []rune{0x20, 0x41, 0x627, 0x4E00, 0xF020, 0xFFFF, 0x1F600, 0x10FFFF} {
 		g1, ok1 := face.NominalGlyph(r)
@@ -566,7 +599,7 @@ func checkCorpusFace(t ev.TB, file string, index int, face *font.Face) (nontrivi
 			ev.Fail(t, "corpus", corpusCase{File: file, Index: index, Type: rp.typeName}, "%s[%d]: NominalGlyph(%s)=(%d,%v) but Cmap.Lookup=(%d,%v)", file, index, u(r), g1, ok1, g2, ok2)
 		}
 	}
-	first, ids := judge(rp, sh)
+	first, ids := judge(rp)
 	for _, id := range ids {
 		ev.Excluded(id)
 	}
@@ -576,7 +609,7 @@ func checkCorpusFace(t ev.TB, file string, index int, face *font.Face) (nontrivi
 	}
 	if first != nil {
 		ev.Fail(t, "corpus", corpusCase{File: file, Index: index, Type: rp.typeName, Disc: first, Count: rp.counts},
-			"%s[%d] (%s): %s  [all discrepancies: %v]", file, index, rp.typeName, first.Msg, rp.counts)
+			"%s[%d] (%s): %s  [all discrepancies: %v, of which matched by listed findings: %v]", file, index, rp.typeName, first.Msg, rp.counts, rp.excused)
 	}
 	if ev.WantSample() {
 		ev.Sample(map[string]any{"file": file, "index": index, "cmap_type": rp.typeName, "runes_mapped": rp.nLookup, "iter_pairs": rp.nIter, "ranger": rp.ranger})
